@@ -67,6 +67,8 @@ def run_one(spec, it, dec, res, max_viol=50):
         rec = {'cls': 'pruned', 'ok': True}
     except Unsupported as e:
         res.unsupported[str(e)[:200]] += 1
+        if os.environ.get('MIRSYM_DEBUG'):
+            traceback.print_exc(); print('STACK', it.stack[-4:])
         rec = None
     except z3.Z3Exception as e:
         res.unsupported['z3: ' + str(e)[:160]] += 1
